@@ -49,7 +49,11 @@ def run(repo: Repo, rep: Report):
     _check_recursion(repo, rep, res)
     _check_use_cycle_guard(repo, rep)
     _check_xml_entry(repo, rep)
-    _check_gate(repo, rep)
+    rep.rule("R-TERM.regex", "no regular expression of the package has an ambiguous iteration (exponential backtracking)")
+    _check_regexes(repo, rep, folder)
+    from sa.rules import sem, c01
+    sem.check_reference_cycles(repo, rep, "R-TERM.refwalk")
+    c01._check_gate_raises(repo, rep, rule="R-ORDER.gate-raises")
 
 
 # --------------------------------------------------------------------------------------------
@@ -57,9 +61,11 @@ def _names(node) -> Set[str]:
     return {n.id for n in ast.walk(node) if isinstance(n, ast.Name)}
 
 
-def _follows_references(loop_or_fn) -> List[ast.Call]:
-    """Calls inside the construct that pick the next item through a document-chosen reference."""
+def _follows_references(loop_or_fn, mod: Optional[Module] = None, depth: int = 2, _seen=None) -> List[ast.Call]:
+    """Calls inside the construct - or inside helpers of the same class/module it calls - that pick the next item
+    through a document-chosen reference."""
     out = []
+    _seen = _seen if _seen is not None else set()
     for c in ast.walk(loop_or_fn):
         if isinstance(c, ast.Call):
             nm = call_name(c)
@@ -68,21 +74,51 @@ def _follows_references(loop_or_fn) -> List[ast.Call]:
                 out.append(c)
             elif last == "xpath" and any("@id=" in unparse(a) for a in c.args):
                 out.append(c)
+            elif mod is not None and depth > 0 and (nm.startswith(("self.", "cls.")) or "." not in nm):
+                for q, f in mod.functions.items():
+                    if q.split(".")[-1] == last and id(f) not in _seen and f is not loop_or_fn:
+                        _seen.add(id(f))
+                        if _follows_references(f, mod, depth - 1, _seen):
+                            out.append(c)
+    return out
+
+
+def _must_statements(body) -> List[ast.stmt]:
+    """Top-level statements of a loop body that run on every iteration that reaches the back edge
+    (nothing before them can `continue`)."""
+    out = []
+    for s in body:
+        if any(isinstance(x, ast.Continue) for x in ast.walk(s)) and not isinstance(s, (ast.For, ast.While)):
+            break
+        out.append(s)
+    return out
+
+
+def _assigned_names(node) -> Set[str]:
+    out = set()
+    for n in ast.walk(node):
+        if isinstance(n, (ast.Assign, ast.AugAssign, ast.AnnAssign)):
+            for t in (n.targets if isinstance(n, ast.Assign) else [n.target]):
+                out |= {x.id for x in ast.walk(t) if isinstance(x, ast.Name)}
+        elif isinstance(n, (ast.For, ast.comprehension)):
+            out |= {x.id for x in ast.walk(n.target) if isinstance(x, ast.Name)}
     return out
 
 
 def _classify_while(repo, folder, rep: Report, mod: Module, q: str, fn, loop: ast.While):
     F = f"{mod.name}.{q}"
     test = unparse(loop.test)
-    body_txt = "\n".join(unparse(s) for s in loop.body)
     site = f"{F}: while {test}"
-    # (b) parent walk
-    if test.endswith(".getparent() is not None"):
-        var = test[: -len(".getparent() is not None")]
-        if any(isinstance(s, ast.Assign) and unparse(s.targets[0]) == var and unparse(s.value) == f"{var}.getparent()" for s in loop.body):
-            rep.ok("R-TERM.loop", site, "parent walk: the variable moves to its parent every iteration (finite ancestor chain)", True)
-            return
-    # (c) index advance
+    must = _must_statements(loop.body)
+    failures = []
+    # (b) parent walk: `while x.getparent() is not None` / `while x is not None`, x replaced by its parent on every iteration
+    for suffix in (".getparent() is not None", " is not None"):
+        if test.endswith(suffix) and not (suffix == " is not None" and test.endswith(".getparent() is not None")):
+            var = test[: -len(suffix)]
+            if any(isinstance(s, ast.Assign) and unparse(s.targets[0]) == var and unparse(s.value) == f"{var}.getparent()" for s in must):
+                rep.ok("R-TERM.loop", site, "parent walk: the variable moves to its parent every iteration (finite ancestor chain)", True)
+                return
+    # (c) index advance over a token list
     if isinstance(loop.test, ast.Compare) and len(loop.test.ops) == 1 and isinstance(loop.test.ops[0], ast.Lt) \
             and isinstance(loop.test.left, ast.Name) and unparse(loop.test.comparators[0]).startswith("len("):
         idx = loop.test.left.id
@@ -90,21 +126,32 @@ def _classify_while(repo, folder, rep: Report, mod: Module, q: str, fn, loop: as
         prob = _index_progress(repo, folder, mod, fn, loop, idx, seq)
         if prob is None:
             rep.ok("R-TERM.loop", site, "every path through the body strictly advances the index or strictly shortens the pending token (token regexes are non-nullable)", True)
-        else:
-            rep.fail("R-TERM.loop", F, f"while {test}", f"index loop without guaranteed progress: {prob}", mod, loop)
-        return
+            return
+        failures.append(f"index loop without guaranteed progress: {prob}")
+    # (c') bounded counter: `while i < E` with E untouched by the body and i increased by a positive constant on every iteration
+    if isinstance(loop.test, ast.Compare) and len(loop.test.ops) == 1 and isinstance(loop.test.ops[0], (ast.Lt, ast.LtE)) and isinstance(loop.test.left, ast.Name):
+        idx = loop.test.left.id
+        bound_names = _names(loop.test.comparators[0])
+        writes = _assigned_names(ast.Module(body=loop.body, type_ignores=[]))
+        incs = [s for s in must if isinstance(s, ast.AugAssign) and isinstance(s.op, ast.Add) and unparse(s.target) == idx and isinstance(s.value, ast.Constant)
+                and isinstance(s.value.value, (int, float)) and s.value.value > 0]
+        other = [n for n in ast.walk(ast.Module(body=loop.body, type_ignores=[])) if isinstance(n, (ast.Assign, ast.AugAssign)) and idx in
+                 {x.id for t in (n.targets if isinstance(n, ast.Assign) else [n.target]) for x in ast.walk(t) if isinstance(x, ast.Name)} and n not in incs]
+        if incs and not other and not (bound_names & writes):
+            rep.ok("R-TERM.loop", site, f"bounded counter: {idx} grows by a positive constant on every iteration towards a bound the body does not touch", True)
+            return
     # (a) worklist
     if isinstance(loop.test, ast.Name):
         W = loop.test.id
         prob = _worklist(repo, mod, q, fn, loop, W)
         if prob is None:
             rep.ok("R-TERM.loop", site, "worklist over tree nodes: one pop per iteration, only children of the popped node are pushed", True)
-        else:
-            rep.fail("R-TERM.loop", F, f"while {test}", f"worklist loop: {prob}", mod, loop)
-        return
+            return
+        failures.append(f"worklist loop: {prob}")
     # (f) reference following / re-scan loops
-    refs = _follows_references(loop)
-    if refs or (isinstance(loop.test, ast.Constant) and loop.test.value):
+    refs = _follows_references(loop, mod)
+    rescans = isinstance(loop.test, ast.Name) and any(isinstance(s, ast.Assign) and unparse(s.targets[0]) == loop.test.id and "xpath" in unparse(s.value) for s in loop.body)
+    if (refs and not isinstance(loop.test, ast.Name)) or rescans or (isinstance(loop.test, ast.Constant) and loop.test.value):
         guard = _refwalk_guard(repo, mod, fn, loop)
         if guard:
             rep.ok("R-TERM.refwalk", site, guard, True)
@@ -113,8 +160,8 @@ def _classify_while(repo, folder, rep: Report, mod: Module, q: str, fn, loop: as
                      "iterative loop that follows document-chosen references (" + ", ".join(sorted({call_name(c) for c in refs})) +
                      ") without a visited set or a dominating cycle pre-check: a reference cycle makes it run forever", mod, loop)
         return
-    rep.fail("R-TERM.loop", F, f"while {test}", "while-loop matches none of the known termination arguments (worklist, parent walk, "
-             "advancing index, guarded reference walk)", mod, loop)
+    rep.fail("R-TERM.loop", F, f"while {test}", (failures[0] if failures else "while-loop matches none of the known termination arguments (worklist, parent walk, "
+             "bounded counter, advancing index, guarded reference walk)"), mod, loop)
 
 
 def _index_progress(repo, folder, mod, fn, loop, idx, seq) -> Optional[str]:
@@ -335,7 +382,7 @@ def _check_recursion(repo, rep: Report, res: Resolver):
                 continue
             n += 1
             rep.saw(F)
-            refs = _follows_references(fn)
+            refs = _follows_references(fn, mod)
             if refs:
                 rep.ok("R-TERM.recursion", F, "recursive reference walk (" + ", ".join(sorted({call_name(r) for r in refs})) +
                        "): a reference cycle ends in RecursionError - an exception, allowed by the property (recorded as a note)")
@@ -431,30 +478,51 @@ def _check_xml_entry(repo, rep: Report):
                     if nm in ("urllib", "requests", "socket", "http", "subprocess", "ftplib", "xml"):
                         rep.fail("R-EFFECT.xml-entry", f"{mod.name}.<module>", n, f"imports {nm}", mod, n)
     rep.call_sites += n_calls
-    if len(parsers) != 1 or parsers[0][0].name != "svg" or parsers[0][2] != "SVG.fromstring":
-        rep.fail("R-EFFECT.xml-entry", "svg.SVG.fromstring", "etree.XMLParser(...)", f"{len(parsers)} XMLParser constructions (exactly one, in SVG.fromstring, expected)", svg)
-        return
-    mod, c, _ = parsers[0]
-    v = kwarg(c, "resolve_entities")
-    if isinstance(v, ast.Constant) and v.value is False:
-        rep.ok("R-EFFECT.xml-entry", "svg.SVG.fromstring: XMLParser(resolve_entities=False)", f"single parser construction among {n_calls} call sites")
-    else:
-        rep.fail("R-EFFECT.xml-entry", "svg.SVG.fromstring", c, "XMLParser is not constructed with resolve_entities=False: external entities could be read", mod, c)
-    for bad_kw in ("load_dtd", "dtd_validation", "no_network", "huge_tree", "attribute_defaults"):
-        v = kwarg(c, bad_kw)
-        if v is not None and not (bad_kw == "no_network" and getattr(v, "value", None) is True) and getattr(v, "value", None) not in (False, None):
-            rep.fail("R-EFFECT.xml-entry", "svg.SVG.fromstring", c, f"XMLParser option {bad_kw}={unparse(v)} enables DTD/network/huge input handling", mod, c)
-    fs = svg.func("SVG.fromstring")
-    uses_parser = any(isinstance(x, ast.Call) and call_name(x) == "etree.fromstring" and len(x.args) == 2 for x in ast.walk(fs))
-    if uses_parser:
-        rep.ok("R-EFFECT.xml-entry", "svg.SVG.fromstring: etree.fromstring(data, parser)")
-    else:
-        rep.fail("R-EFFECT.xml-entry", "svg.SVG.fromstring", "etree.fromstring(string, parser)", "the hardened parser is not the one used to parse the document", svg, fs)
-    p = svg.func("SVG.parse")
-    if any(isinstance(x, ast.Return) and x.value is not None and call_name(x.value) == "cls.fromstring" for x in ast.walk(p)):
-        rep.ok("R-EFFECT.xml-entry", "svg.SVG.parse delegates to fromstring")
-    else:
-        rep.fail("R-EFFECT.xml-entry", "svg.SVG.parse", "return cls.fromstring(raw_svg)", "parse no longer delegates to the hardened entry point", svg, p)
+    from sa.rules import sem
+    sem.check_xml_entry(repo, rep, "R-EFFECT.xml-entry", {"resolve_entities": False}, forbid=("load_dtd", "dtd_validation", "no_network", "huge_tree", "attribute_defaults"))
+
+
+def _check_regexes(repo, rep: Report, folder):
+    """Every regular expression literal of the package is free of ambiguous iterations (a backtracking matcher needs
+    exponential time on them when the text after the ambiguous run does not match)."""
+    from sa.regex import ambiguous_iterations, RegexUnsupported
+    n = 0
+    for mod in repo.modules.values():
+        for c in ast.walk(mod.tree):
+            if not (isinstance(c, ast.Call) and isinstance(c.func, ast.Attribute) and isinstance(c.func.value, ast.Name) and c.func.value.id == "re"
+                    and c.func.attr in ("compile", "match", "fullmatch", "search", "split", "sub", "findall", "finditer") and c.args):
+                continue
+            try:
+                pat = folder.eval_expr(mod.name, c.args[0]) if hasattr(folder, "eval_expr") else None
+            except Exception:
+                pat = None
+            if pat is None:
+                try:
+                    pat = ast.literal_eval(c.args[0])
+                except Exception:
+                    pat = None
+            site = f"{mod.name}.{_fn(c)}: re.{c.func.attr}({unparse(c.args[0])[:50]})"
+            if not isinstance(pat, str):
+                # built from runtime values (f-string with a %d-like hole): substitute a plain digit run for every hole
+                if isinstance(c.args[0], ast.JoinedStr):
+                    pat = "".join(v.value if isinstance(v, ast.Constant) else "1" for v in c.args[0].values)
+                else:
+                    rep.ok("R-TERM.regex", site, "pattern is not a literal (built at run time): not analysed")
+                    continue
+            n += 1
+            flags = 0
+            try:
+                amb = ambiguous_iterations(pat, flags)
+            except RegexUnsupported as e:
+                rep.ok("R-TERM.regex", site, f"uses a construct outside the analysed fragment ({e}): not analysed")
+                continue
+            if amb:
+                w, what = amb[0]
+                rep.fail("R-TERM.regex", f"{mod.name}.{_fn(c)}", c.args[0], f"regular expression {pat!r} has {what}: on a long run of such text followed by a mismatch, "
+                         "CPython's backtracking matcher tries exponentially many splits (the conversion hangs on a malformed value)", mod, c)
+            else:
+                rep.ok("R-TERM.regex", site, "no iteration whose body matches one string as one and as several rounds", True)
+    rep.floor("regular expression literals in the package", n, 8)
 
 
 def _fn(node) -> str:
